@@ -1,13 +1,30 @@
 (* Properties_C13.v - regress log extraction is sound, complete and agrees
    with its exit status.  Only theorem statements, each closed by [exact] and
    followed by Print Assumptions.  Quantifiers: every selection of outcomes,
-   every list of files, every byte content - no bound on sizes.
+   every list of files, every byte content (any line length, NUL and CR bytes
+   included) - no bound on sizes.
 
    [main] is the model of robsd-regress-log (RLDefs.v, tied to the binary by the
-   correspondence check), [spec_main], [file_blocks] the specification
-   (RLSpec.v).  The command line can never set REGRESS_LOG_NEWLINE, hence the
-   hypothesis [fNEWLINE fl = false]. *)
-From Robsd Require Import RegressLog.RLSpec RegressLog.RLProofs.
+   correspondence check and to the source text by RLTie.v / Gen_RegressLog.v),
+   [spec_main] the comprehension-style specification (RLSpec.v), [Blocks] the
+   relational specification of the extracted blocks (RLLines.v).  The command
+   line can never set REGRESS_LOG_NEWLINE (C13_source_pins, last conjunct), hence
+   the hypothesis [fNEWLINE fl = false].
+
+   Property text vs. what holds:
+     - "output consists solely of lines of the log": plus ONE EMPTY LINE between
+       consecutive blocks, which is not a log line (C13_lines says exactly where);
+     - "Hence ... always classified as a failed regress run": true for
+       regress_failed (C13_hence_regress_failed) and for step_exec when the
+       examined file is the complete log (C13_hence_step_exec); step_exec used
+       to read the file while tee was still writing it, which refuted the
+       clause (C13_hence_step_exec_refuted, replayed on util.sh, repaired in
+       /repo 604d158; C13_hence_step_exec_holds_now for the present source); FALSE for
+       robsd-regress-html taken by itself (C13_html_exit0_never_failure), true
+       for it composed with step_exec's exit status (C13_hence_html_composed). *)
+From Robsd Require Import RegressLog.RLSpec RegressLog.RLProofs RegressLog.RLMarkers
+  RegressLog.RLLines RegressLog.RLExit RegressLog.RLTrim RegressLog.RLCallDefs RegressLog.RLCallers RegressLog.RLTie.
+From RobsdGen Require Import Gen_RegressLog.
 Local Open Scope N_scope.
 
 (* the command behaves exactly as the specification: same exit, same bytes *)
@@ -17,14 +34,18 @@ Proof. exact main_refines_spec. Qed.
 Print Assumptions C13_main_refines_spec.
 
 (* exit 0 iff some line after the leading trace block of some file contains a
-   selected keyword; 1 iff none does (all files readable) *)
+   keyword of a selected outcome; 1 iff none does (all files readable).  The
+   right-hand side is spelled out on the bytes: [after_trace] = what is left
+   after the longest prefix of lines starting with '+', [keyword_selected] =
+   substring containment of FAILED / SKIPPED or DISABLED / EXPECTED_FAIL /
+   UNEXPECTED_PASS for a selected outcome. *)
 Theorem C13_exit_iff_match : forall fl doprint fs,
   fNEWLINE fl = false ->
   (fst (main fl doprint (map Some fs)) = 0 <->
-     exists f, In f fs /\ exists l, In l (drop_trace (clines f)) /\ selected fl l = true) /\
+     exists f rest l, In f fs /\ after_trace (clines f) rest /\ In l rest /\ keyword_selected fl l) /\
   (fst (main fl doprint (map Some fs)) = 1 <->
-     ~ exists f, In f fs /\ exists l, In l (drop_trace (clines f)) /\ selected fl l = true).
-Proof. exact exit_zero_iff. Qed.
+     ~ exists f rest l, In f fs /\ after_trace (clines f) rest /\ In l rest /\ keyword_selected fl l).
+Proof. exact exit_spelled_out. Qed.
 Print Assumptions C13_exit_iff_match.
 
 (* exit 2 exactly for an unreadable file *)
@@ -33,51 +54,75 @@ Theorem C13_exit2_iff_unreadable : forall fl doprint files,
 Proof. exact exit_two_iff. Qed.
 Print Assumptions C13_exit2_iff_unreadable.
 
-(* the selected keywords mean what the manual says: substring containment *)
-Theorem C13_keywords : forall l,
-  (isfailed l = true <-> exists a b, l = a ++ kw_FAILED ++ b) /\
-  (isxpassed l = true <-> exists a b, l = a ++ kw_XPASS ++ b) /\
-  (isxfailed l = true <-> exists a b, l = a ++ kw_XFAIL ++ b) /\
-  (isskipped l = true <-> (exists a b, l = a ++ kw_SKIPPED ++ b) \/ (exists a b, l = a ++ kw_DISABLED ++ b)).
-Proof. exact keywords_spec. Qed.
-Print Assumptions C13_keywords.
+(* what the leading shell-trace block is: the longest prefix of '+' lines *)
+Theorem C13_trace_block : forall ls,
+  (forall rest, after_trace ls rest <-> rest = drop_trace ls) /\
+  (exists tr, ls = tr ++ drop_trace ls /\ Forall (fun l => isxtrace l = true) tr /\
+              untraced_head (drop_trace ls)) /\
+  (forall l, isxtrace l = true <-> exists t, l = 43 :: t).
+Proof. exact (fun ls => conj (after_trace_iff ls) (conj (drop_trace_spec ls) isxtrace_spec)). Qed.
+Print Assumptions C13_trace_block.
 
-(* soundness: what is printed for a file, read back line by line, is the blocks
-   with one empty separator line between them, and the blocks concatenated are
-   a subsequence of the file's lines in their original order *)
-Theorem C13_sound : forall fl f,
+(* what a marker is.  Test marker: "==== ====", or "==== x ====" where inside
+   " x " no '=' directly follows a space ([sp_eq] = " =").  The source documents
+   /^==== .* ====$/: that shape is neither sufficient ("==== a =b ====" is no
+   marker) nor necessary ("==== ====" is one); it suffices when the name holds
+   no '='.  Sub-directory marker: the prefix "===>". *)
+Theorem C13_markers : forall l,
+  (ismarker_regress l = true <->
+     l = mk_regress ++ 32 :: mk_regress \/
+     exists x, l = mk_regress ++ 32 :: x ++ 32 :: mk_regress /\ infixb sp_eq (32 :: x ++ [32]) = false) /\
+  (ismarker_subdir l = true <-> exists t, l = mk_subdir ++ t) /\
+  (forall x, ~ In 61 x -> ismarker_regress (mk_regress ++ 32 :: x ++ 32 :: mk_regress) = true) /\
+  (exists x, ismarker_regress (mk_regress ++ 32 :: x ++ 32 :: mk_regress) = false).
+Proof.
+  exact (fun l => conj (ismarker_regress_spec l) (conj (ismarker_subdir_spec l)
+           (conj marker_plain_name marker_regex_not_sufficient))).
+Qed.
+Print Assumptions C13_markers.
+
+(* the blocks of one file as a relation on its lines, and that relation has
+   exactly one solution, the one the specification computes *)
+Theorem C13_blocks_determined : forall fl f bl,
+  Blocks (selected fl) (drop_trace (clines f)) bl <-> bl = file_blocks fl f.
+Proof. exact file_blocks_iff. Qed.
+Print Assumptions C13_blocks_determined.
+
+(* ANY list of readable files, line level: the printed text, read back line by
+   line, is the blocks of all files in order with one empty line between
+   consecutive blocks; the exit status says whether there is a block *)
+Theorem C13_lines : forall fl fs,
   fNEWLINE fl = false ->
-  sublist (concat (file_blocks fl f)) (clines f) /\
-  (file_blocks fl f <> [] ->
-     snd (main fl true [Some f]) = render_from false 0 (file_blocks fl f) /\
-     getlines (render_from false 0 (file_blocks fl f)) = with_separators (file_blocks fl f)).
-Proof.
-  exact (fun fl f Hnl => conj (blocks_sublist fl (clines f))
-    (fun Hne => conj (sound_single fl f Hnl Hne) (printed_lines fl f Hne))).
-Qed.
-Print Assumptions C13_sound.
+  exists bls : list (list (list bytes)),
+    Forall2 (fun f bl => Blocks (selected fl) (drop_trace (clines f)) bl) fs bls /\
+    getlines (snd (main fl true (map Some fs))) = with_separators (concat bls) /\
+    snd (main fl true (map Some fs)) = unlines (with_separators (concat bls)) /\
+    (forall dp, fst (main fl dp (map Some fs)) = 0 <-> concat bls <> []) /\
+    (forall dp, fst (main fl dp (map Some fs)) = 1 <-> concat bls = []).
+Proof. exact main_lines. Qed.
+Print Assumptions C13_lines.
 
-(* completeness: the lines after the trace block split into pieces that each
-   end in their only selected line (plus an unselected remainder); a block is
-   its piece from the last marker on; so every selected line ends a block that
-   reaches back to the preceding marker or the previously extracted block *)
-Theorem C13_complete : forall fl f,
-  let L := drop_trace (clines f) in
-  let cs := chunks (selected fl) [] L in
-  (exists rest, L = concat cs ++ rest /\ existsb (selected fl) rest = false) /\
-  (forall c, In c cs -> exists pre l, c = pre ++ [l] /\ existsb (selected fl) pre = false /\ selected fl l = true) /\
-  file_blocks fl f = map from_last_marker cs /\
-  (forall c, exists pre, c = pre ++ from_last_marker c /\
-     (pre <> [] -> exists m t, from_last_marker c = m :: t /\ ismarker m = true) /\
-     existsb ismarker (tl (from_last_marker c)) = false) /\
-  (forall l, In l L -> selected fl l = true ->
-     exists b, In b (file_blocks fl f) /\ b <> [] /\ last b l = l).
-Proof.
-  exact (fun fl f => conj (chunks_partition _ [] _ eq_refl)
-    (conj (fun c => chunks_shape _ [] _ c eq_refl)
-    (conj eq_refl (conj from_last_marker_suffix (complete_selected fl f))))).
-Qed.
-Print Assumptions C13_complete.
+(* soundness and completeness, from the relation alone: the lines of the blocks
+   are a subsequence of the lines offered (original order, nothing invented,
+   nothing duplicated); the selected lines among them are exactly the selected
+   lines offered, with multiplicity and in order; and each is the last line of
+   its own block *)
+Theorem C13_lines_sound_complete : forall (sel : bytes -> bool) Ls bls,
+  Forall2 (Blocks sel) Ls bls ->
+  sublist (concat (concat bls)) (concat Ls) /\
+  filter sel (concat (concat bls)) = concat (map (filter sel) Ls) /\
+  map (fun b => last b []) (concat bls) = concat (map (filter sel) Ls).
+Proof. exact lines_sound_complete. Qed.
+Print Assumptions C13_lines_sound_complete.
+
+(* what a block reaches back to: it ends in its only selected line and holds
+   no marker except possibly as its first line *)
+Theorem C13_block_shape : forall sel L bl b,
+  Blocks sel L bl -> In b bl ->
+  exists kept l, b = kept ++ [l] /\ sel l = true /\ existsb sel kept = false /\
+                 existsb ismarker (tl b) = false.
+Proof. exact Blocks_shape. Qed.
+Print Assumptions C13_block_shape.
 
 Theorem C13_noprint_same_exit : forall fl files,
   fNEWLINE fl = false ->
@@ -85,19 +130,139 @@ Theorem C13_noprint_same_exit : forall fl files,
 Proof. exact noprint_same. Qed.
 Print Assumptions C13_noprint_same_exit.
 
+(* peek = 1 iff a selected line exists after the trace block, else 0; hence it agrees with the full parse *)
 Theorem C13_peek_agrees : forall fl f,
-  (0 < peek fl f)%nat <-> (0 < fst (parse fl f []))%nat.
-Proof. exact peek_agrees. Qed.
+  peek fl f = (if existsb (selected fl) (drop_trace (clines f)) then 1%nat else 0%nat) /\
+  ((0 < peek fl f)%nat <-> (0 < fst (parse fl f []))%nat).
+Proof. exact (fun fl f => conj (peek_spec fl f) (peek_agrees fl f)). Qed.
 Print Assumptions C13_peek_agrees.
 
-(* the corollary the orchestrator and the HTML status rest on *)
-Theorem C13_failed_or_xpass_always_failed_run : forall fl f l dp,
-  fNEWLINE fl = false -> fFAILED fl = true -> fXPASSED fl = true ->
-  In l (drop_trace (clines f)) ->
-  (exists a b, l = a ++ kw_FAILED ++ b) \/ (exists a b, l = a ++ kw_XPASS ++ b) ->
-  fst (main fl dp [Some f]) = 0.
-Proof. exact failed_or_xpass_is_failure. Qed.
-Print Assumptions C13_failed_or_xpass_always_failed_run.
+(* regress_log_trim (what robsd-regress-html shows for a log with nothing to
+   extract): the lines after the leading trace block without the trailing block
+   of trace lines, each followed by a newline; [strip_trailing ls] is the unique
+   prefix of ls whose remainder is all trace lines and which does not end in one *)
+Theorem C13_trim : forall file,
+  trim file = unlines (strip_trailing (drop_trace (clines file))) /\
+  getlines (trim file) = strip_trailing (drop_trace (clines file)) /\
+  sublist (getlines (trim file)) (clines file) /\
+  (forall ls keep t, ls = keep ++ t -> Forall (fun l => isxtrace l = true) t ->
+     (forall d l, keep = d ++ [l] -> isxtrace l = false) -> keep = strip_trailing ls).
+Proof.
+  exact (fun file => conj (trim_refines_spec file) (conj (proj1 (trim_lines file))
+           (conj (proj2 (trim_lines file)) strip_trailing_unique))).
+Qed.
+Print Assumptions C13_trim.
+
+(* the executable oracles applied to the implementation accept every run of the model, and only those *)
+Theorem C13_oracle_accepts_model : forall fl dp files,
+  fNEWLINE fl = false ->
+  spec_ok_main fl dp files (fst (main fl dp files)) (snd (main fl dp files)) = true /\
+  (forall e o, spec_ok_main fl dp files e o = true <-> main fl dp files = (e, o)) /\
+  (forall f, spec_ok_peek fl f (peek fl f) = true).
+Proof.
+  exact (fun fl dp files Hnl => conj (oracle_accepts_main fl dp files Hnl)
+           (conj (fun e o => oracle_main_exact fl dp files e o Hnl) (oracle_accepts_peek fl))).
+Qed.
+Print Assumptions C13_oracle_accepts_model.
+
+(* ---- the "Hence" clause, caller by caller ---------------------------------------------- *)
+
+(* util-regress.sh regress_failed (robsd-regress-log -FPn): exact *)
+Theorem C13_hence_regress_failed : forall log,
+  regress_failed (Some log) = true <-> failing_line log.
+Proof. exact regress_failed_iff. Qed.
+Print Assumptions C13_hence_regress_failed.
+
+(* util.sh step_exec on the log it examined: failed iff the runner failed or (regress mode and a failing line) *)
+Theorem C13_hence_step_exec : forall regress rc seen,
+  (step_exec_exit regress rc (Some seen) <> 0 <-> rc <> 0 \/ (regress = true /\ failing_line seen)) /\
+  (regress = true -> failing_line seen -> step_exec_exit regress rc (Some seen) = 1) /\
+  (regress = false -> step_exec_exit regress rc (Some seen) = rc) /\
+  (~ failing_line seen -> step_exec_exit regress rc (Some seen) = rc).
+Proof. exact step_exec_exit_spec. Qed.
+Print Assumptions C13_hence_step_exec.
+
+(* step_exec in full: [seen] = whatever part of the log tee had written when the
+   runner exited, [step_exec_checks_inside_pipeline] = where util.sh examines
+   the log, read from the source on every check.
+
+   HISTORICAL PIN (defect found by this check, repaired in /repo 604d158): with
+   the check inside the pipeline - the hypothesis below, FALSE of the present
+   source - the clause held only when the whole log had reached the file and is
+   refuted by a prefix (replayed on util.sh: findings/C13_step_exec_log_race.{sh,md,diff}).
+   The statement that holds now is C13_hence_step_exec_holds_now below. *)
+Theorem C13_hence_step_exec_refuted :
+  step_exec_checks_inside_pipeline = true ->
+  ((forall rc log, failing_line log ->
+      step_exec_run step_exec_checks_inside_pipeline true rc log log = 1) /\
+   exists log seen, prefix_of seen log /\ failing_line log /\
+      step_exec_run step_exec_checks_inside_pipeline true 0 log seen = 0) /\
+  ~ hence_step_exec_statement.
+Proof. exact (fun H => conj (proj2 hence_step_exec_shipped H) (hence_step_exec_statement_false H)). Qed.
+Print Assumptions C13_hence_step_exec_refuted.
+
+(* the source as it is now: the check comes after the pipeline, so the clause
+   holds for every schedule of tee.  Closed by [eq_refl] on the translated
+   switch: should the check move back inside the pipeline, the translator flips
+   the switch, this proof no longer checks and the late-tee lane of the harness
+   produces the failing run. *)
+Theorem C13_hence_step_exec_holds_now : forall rc log seen,
+  failing_line log ->
+  step_exec_run step_exec_checks_inside_pipeline true rc log seen = 1.
+Proof. exact (hence_step_exec_if_fixed eq_refl). Qed.
+Print Assumptions C13_hence_step_exec_holds_now.
+
+(* regress-html by itself: a recorded exit status of 0 never gives a failure
+   status, whatever the log holds - the clause is false for this caller ... *)
+Theorem C13_html_exit0_never_failure :
+  (forall log, hfailure (html_status ex_timeout 0 log) = false) /\
+  (exists log, failing_line log /\ html_status 124 0 log = HPASS).
+Proof. exact (conj html_exit0_never_failure_shipped html_pass_with_failed_line). Qed.
+Print Assumptions C13_html_exit0_never_failure.
+
+(* ... and true for it when the exit status is the one step_exec computed from the same log *)
+Theorem C13_hence_html_composed : forall timeout rc log,
+  failing_line log ->
+  hfailure (html_status timeout (step_exec_exit true rc (Some log)) log) = true.
+Proof. exact hence_html_composed. Qed.
+Print Assumptions C13_hence_html_composed.
+
+(* ---- the model against the source text (Gen_RegressLog.v) -------------------------------- *)
+
+Theorem C13_source_pins : forall fl l,
+  (isskipped l = gpred_fun GP_isskipped l /\ isfailed l = gpred_fun GP_isfailed l /\
+   isxfailed l = gpred_fun GP_isxfailed l /\ isxpassed l = gpred_fun GP_isxpassed l) /\
+  selected fl l = gen_selected fl l /\
+  isxtrace l = gen_isxtrace l /\
+  ismarker_regress l = gen_ismarker_regress l /\
+  ismarker_subdir l = prefixb marker_subdir_needle l /\
+  (exit_error = 2 /\ exit_none = 1 /\ exit_found = 0 /\ exit_usage = 1) /\
+  (gen_flags_of_opts regress_failed_opts = fl_FP /\ gen_doprint regress_failed_opts = false) /\
+  (forall exit log, hname (html_status ex_timeout exit log) = gen_html_status exit log) /\
+  (forall s, hfailure s = existsb (beq (hname s)) failure_statuses) /\
+  (forall opts, fNEWLINE (gen_flags_of_opts opts) = false).
+Proof.
+  exact (fun fl l => conj (tie_predicates l) (conj (tie_selected fl l) (conj (tie_isxtrace l)
+    (conj (tie_ismarker_regress l) (conj (tie_ismarker_subdir l) (conj tie_exit_values
+    (conj tie_regress_failed (conj tie_html_status (conj tie_html_failure cmdline_never_newline))))))))).
+Qed.
+Print Assumptions C13_source_pins.
+
+(* ---- NUL, CR, long lines: what the model does ----------------------------------------------- *)
+
+(* a line is cut at its first NUL (the rest of the line is invisible to every
+   test and never printed), whatever the lengths of the parts; CR is an ordinary
+   byte: keywords and "===>" still match, a test marker followed by CR is no marker *)
+Theorem C13_nul_and_cr : forall a b rest l k,
+  (nonl a -> nonul a -> nonl b -> clines (a ++ 0 :: b ++ 10 :: rest) = a :: clines rest) /\
+  ismarker_regress (l ++ [13]) = false /\
+  (ismarker_subdir l = true -> ismarker_subdir (l ++ [13]) = true) /\
+  (infixb k l = true -> infixb k (l ++ [13]) = true).
+Proof.
+  exact (fun a b rest l k => conj (clines_nul_cut a b rest) (conj (crlf_marker_lost l)
+           (conj (crlf_subdir_kept l) (crlf_keyword_kept k l)))).
+Qed.
+Print Assumptions C13_nul_and_cr.
 
 (* non-vacuity: a log with a trace block, two markers, two selected lines *)
 From Coq Require Import String.
